@@ -45,7 +45,16 @@ impl ByteCompiler<'_> {
             };
             self.patch_jump(label);
 
+            // A `const` declared in this clause is not initialized when control jumps to a later
+            // clause: the register that caches its value must not stand for it there.
+            let cached = self
+                .const_binding_cache
+                .keys()
+                .cloned()
+                .collect::<Vec<_>>();
             self.compile_statement_list(case.body(), use_expr, true);
+            self.const_binding_cache
+                .retain(|locator, _| cached.contains(locator));
         }
 
         if !default_label_set {
